@@ -4,20 +4,20 @@
 # with the change the tree builds, the pre-existing suite passes and the demo fails. Then stores it under /verif/seeded/<Cxx>-<x>/.
 set -u
 export GOFLAGS=-mod=mod GOPROXY=off GOSUMDB=off GOTOOLCHAIN=local
-id=$1; x=$2
-wt=/tmp/wt/$id; src=$wt/_out/$x
+id=$1; x=$2; od=${3:-_out}
+wt=/tmp/wt/$id; src=$wt/$od/$x
 [ -f $src/patch.diff ] || { echo "no patch in $src"; exit 2; }
 cd $wt || exit 2
-git checkout -q -- . ; find . -name 'zz_demo_*' -not -path './_out/*' -delete
+git checkout -q -- . ; find . -name 'zz_demo_*' -not -path './_out*' -delete
 demos=$(ls $src/*_test.go 2>/dev/null)
 [ -n "$demos" ] || { echo "no demo test file"; exit 2; }
 pkgdirs=""
 place() { for d in $demos; do
     pk=$(grep -m1 '^package ' $d | awk '{print $2}' | sed 's/_test$//')
-    dir=$(grep -rl --include='*.go' -m1 "^package $pk\$" . 2>/dev/null | grep -v _out | head -1 | xargs dirname)
+    dir=$(grep -rl --include='*.go' -m1 "^package $pk\$" . 2>/dev/null | grep -v "_out" | head -1 | xargs dirname)
     cp $d $dir/; pkgdirs="$pkgdirs $dir"
   done; }
-unplace() { find . -name 'zz_demo_*' -not -path './_out/*' -delete; }
+unplace() { find . -name 'zz_demo_*' -not -path './_out*' -delete; }
 place
 pk=$(echo $pkgdirs | tr ' ' '\n' | sort -u | tr '\n' ' ')
 echo "== demo on clean tree ($pk)"
